@@ -11,10 +11,11 @@ def table(g, a, b):
             'ANDNY': (1 - a) & b, 'ANDYN': a & (1 - b), 'ORNY': (1 - a) | b, 'ORYN': a | (1 - b)}[g]
 MU = 2**29
 
-def mk_sample(rng, s, phase, trivial=False):
+def mk_sample(rng, s, phase, trivial=False, lead0=0):
     n = len(s)
     if trivial: return [0] * n, vlib.w32(phase)
     a = [rng.randrange(-2**31, 2**31) for _ in range(n)]
+    for i in range(min(lead0, n - 1)): a[i] = rng.choice([0, 0, rng.randrange(-2**19, 2**19)])      # leading mask coefficients that round to rotation 0
     return a, vlib.w32(phase + sum(x for x, y in zip(a, s) if y))
 
 def run(ctx):
@@ -65,6 +66,11 @@ def run(ctx):
                                       'noisy+-': (ERR, -ERR), 'noisy-+': (-ERR, ERR), 'trivial': (0, 0)}[kind]
                             ca = mk_sample(rng, s, (MU if a else -MU) + ea, kind == 'trivial'); cb = mk_sample(rng, s, (MU if b else -MU) + eb, kind == 'trivial')
                             cases.append((gi, g, [ca, cb, ([0] * n, 0)], table(g, a, b), kind, None))
+                        # masks whose leading coefficients are zero or round to the rotation 0 (sparse or structured masks; the blind rotation skips those
+                        # positions): for every input combination
+                        L = rng.choice([1, 1, 2, 5])
+                        ca = mk_sample(rng, s, (MU if a else -MU) + rng.randrange(-2**17, 2**17), False, L); cb = mk_sample(rng, s, (MU if b else -MU) + rng.randrange(-2**17, 2**17), False, L)
+                        cases.append((gi, g, [ca, cb, ([0] * n, 0)], table(g, a, b), 'zero-leading-mask', None))
             for a in (0, 1):
                 for b in (0, 1):
                     for c in (0, 1):
